@@ -8,6 +8,7 @@ TRACE_PROPS = {"C01", "C02", "C03", "C04", "C05", "C06", "C07", "C08", "C09", "C
 INBOUND = {"C04", "C13"}
 CONTENT_PROPS = {"C01", "C17"}
 DISC_PROPS = {"C09"}
+KA_PROPS = {"C12"}
 # guards of the model that stand for a clause of another property as well (C02: same identifier / same bytes on retransmission; C09: nothing succeeds after a finished disconnect)
 RELATED = {"C02": ("C03", "C08"), "C09": ("C05",)}
 
@@ -21,6 +22,8 @@ def check(ctx, prop, collected):
                             "Model/TraceIn.lean" if prop in INBOUND else "Model/Trace.lean", accept_tags=RELATED.get(prop))
     if prop in DISC_PROPS:
         rel += check_engine(ctx, prop, collected, "tracedisc ", trace_abs.abstract_disc, "Model/TraceDisc.lean")
+    if prop in KA_PROPS:
+        rel += check_engine(ctx, prop, collected, "traceka ", trace_abs.abstract_ka, "Model/TraceKA.lean")
     if prop in CONTENT_PROPS:
         rel += check_engine(ctx, prop, collected, "tracecontent ", trace_abs.abstract_content, "Model/TraceContent.lean", accept_tags=("C17", prop))
     return rel
@@ -47,7 +50,7 @@ def check_engine(ctx, prop, collected, cmd, abstract_fn, model_name, accept_tags
     for (seed, s, toks), o in zip(keep, out):
         nev += len(toks)
         for t in toks:
-            k = t.split(":")[0] + (":" + t.split(":")[1] if t.startswith(("p:", "a:", "P:", "d:")) else "")
+            k = t.split(":")[0] + (":" + t.split(":")[1] if t.startswith(("p:", "a:", "P:", "d:")) and short != "traceka" else "")
             kinds[k] = kinds.get(k, 0) + 1
         if o == "accept": continue
         ws = o.split(" ", 3)
